@@ -1,6 +1,7 @@
 package csim
 
 import (
+	"encoding/json"
 	"fmt"
 	"math/rand"
 	"sort"
@@ -81,10 +82,16 @@ func RunLive(dir string, powers []int64, byz []int, maxRound int64, heights int6
 			n.CS.AddProposalBlockPart(x.Height, x.Round, x.Part, peer)
 		}
 	}
+	// what the relay has seen, for the catch-up below
+	var lmtx sync.Mutex
+	var relayed []LiveEvent
 	go func() {
 		for {
 			select {
 			case le := <-relay:
+				lmtx.Lock()
+				relayed = append(relayed, le)
+				lmtx.Unlock()
 				for _, j := range s.HonestIdx() {
 					if j == le.Node {
 						continue
@@ -119,10 +126,106 @@ func RunLive(dir string, powers []int64, byz []int, maxRound int64, heights int6
 			return s, nil, err
 		}
 	}
+	// Catch-up, standing in for the reactor's gossip routines (gossipDataRoutine / gossipVotesRoutine re-send what
+	// PeerState says the peer lacks; the relay above delivers every message once, and a node that was a height or more
+	// than a few rounds behind at that moment drops it for good). A node whose store height has not moved for a
+	// second is sent again (a) the seen commit and the block parts of its height from the store of a node that has
+	// committed it, or (b) the relayed messages of its height from its current round on. Duplicates and late
+	// messages are behaviours of the relay anyway.
+	wg.Add(1)
+	go func() {
+		defer wg.Done()
+		type prog struct {
+			h     int64
+			since time.Time
+		}
+		at := map[int]*prog{}
+		stopped := func() bool {
+			select {
+			case <-stop:
+				return true
+			default:
+				return false
+			}
+		}
+		for {
+			select {
+			case <-stop:
+				return
+			case <-time.After(100 * time.Millisecond):
+			}
+			now := time.Now()
+			for _, j := range s.HonestIdx() {
+				n := s.Nodes[j]
+				h := n.Store.Height() + 1
+				if h > heights {
+					continue
+				}
+				if p := at[j]; p == nil || p.h != h {
+					at[j] = &prog{h: h, since: now}
+					continue
+				} else if now.Sub(p.since) < time.Second {
+					continue
+				}
+				at[j].since = now
+				src := 0
+				for _, k := range s.HonestIdx() {
+					if k != j && s.Nodes[k].Store.Height() >= h {
+						src = k
+						break
+					}
+				}
+				if src != 0 {
+					st := s.Nodes[src].Store
+					commit, meta := st.LoadSeenCommit(h), st.LoadBlockMeta(h)
+					if commit == nil || meta == nil {
+						continue
+					}
+					for _, v := range commit.Precommits {
+						if v != nil && !stopped() {
+							n.CS.AddVote(v, fmt.Sprintf("peer%d", v.ValidatorIndex+1))
+						}
+					}
+					for i := 0; i < meta.PartsHeader.Total && !stopped(); i++ {
+						if part := st.LoadBlockPart(h, i); part != nil {
+							n.CS.AddProposalBlockPart(h, commit.Round(), part, fmt.Sprintf("peer%d", src))
+						}
+					}
+					continue
+				}
+				r := n.CS.GetRoundState().Round
+				lmtx.Lock()
+				again := append([]LiveEvent(nil), relayed...)
+				lmtx.Unlock()
+				for _, le := range again {
+					if le.Node == j || stopped() {
+						continue
+					}
+					peer := fmt.Sprintf("peer%d", le.Node)
+					switch x := le.Ev.Msg.(type) {
+					case *pbft.VoteMessage:
+						if x.Vote.Height == h && x.Vote.Round >= r {
+							n.CS.AddVote(x.Vote, fmt.Sprintf("peer%d", x.Vote.ValidatorIndex+1))
+						}
+					case *pbft.ProposalMessage:
+						if x.Proposal.Height == h && x.Proposal.Round >= r {
+							n.CS.SetProposal(x.Proposal, peer)
+						}
+					case *pbft.BlockPartMessage:
+						if x.Height == h && x.Round >= r {
+							n.CS.AddProposalBlockPart(x.Height, x.Round, x.Part, peer)
+						}
+					}
+				}
+			}
+		}
+	}()
 	// the adversary: every Byzantine validator equivocates - conflicting prevotes/precommits for blocks it has seen, for
 	// nil and for its own blocks, different ones to different nodes, and two different proposals when it is the proposer
 	if len(byz) > 0 && s.ByzActive {
+		wg.Add(1) // (it reads the value registry: LiveTrace must not start before it has ended)
 		go func() {
+			defer wg.Done()
 			brng := rand.New(rand.NewSource(seed ^ 0x5eed))
 			var bmtx sync.Mutex
 			for {
@@ -224,6 +327,7 @@ func (s *Sim) LiveTrace(events []LiveEvent, heights int64) []map[string]interfac
 	}
 	// pass 1: name the blocks: an own proposal followed by its own part
 	pend := map[int]*types.Proposal{}
+	pendSeq := map[int]uint64{}
 	propBy := map[string]int{}
 	pkey := func(p *types.Proposal) string {
 		return fmt.Sprintf("%d/%d/%x/%x", p.Height, p.Round, p.BlockPartsHeader.Hash, p.Signature.Bytes())
@@ -237,6 +341,7 @@ func (s *Sim) LiveTrace(events []LiveEvent, heights int64) []map[string]interfac
 			propBy[pkey(x.Proposal)] = le.Node
 			if _, ok := s.byParts[hexs(x.Proposal.BlockPartsHeader.Hash)]; !ok {
 				pend[le.Node] = x.Proposal
+				pendSeq[le.Node] = le.Ev.Seq
 			}
 		case *pbft.BlockPartMessage:
 			p := pend[le.Node]
@@ -253,7 +358,30 @@ func (s *Sim) LiveTrace(events []LiveEvent, heights int64) []map[string]interfac
 			}
 		}
 	}
+	// A node that was stopped (or whose recording ends) between its own proposal and its own block part has announced a
+	// block the trace cannot name: the recorded execution ends before that proposal.
+	for node, p := range pend {
+		if p.Height > heights {
+			continue
+		}
+		for i, e := range events {
+			if e.Ev.Seq >= pendSeq[node] {
+				events = events[:i]
+				break
+			}
+		}
+	}
 	var out []map[string]interface{}
+	// messages made visible by a recorded own-queue record of their author (a block part: by height and block, its round
+	// carries no information, see Trace_Tendermint.tla)
+	authored := map[string]bool{}
+	akey := func(m Msg) string {
+		if m.T == "B" {
+			return fmt.Sprintf("B/%d/%s", m.H, SymKey(m.V))
+		}
+		b, _ := json.Marshal(m.AsSpec())
+		return string(b)
+	}
 	cur := map[int]int64{} // height of each node before the event
 	for _, le := range events {
 		// what a node does after it has committed the target height is not part of the recorded execution (the run is
@@ -270,12 +398,21 @@ func (s *Sim) LiveTrace(events []LiveEvent, heights int64) []map[string]interfac
 			rec["m"] = map[string]interface{}{"t": "-"}
 		} else {
 			am, err := s.Abstract(le.Node, le.Ev.Msg)
+			if err != nil && rawHeight(le.Ev.Msg) > heights {
+				continue // (as below: from a node that has gone on beyond the target height, possibly a block never named)
+			}
 			if err != nil {
 				rec["a"] = "Unknown"
 				rec["pk"] = int64(0)
 				rec["err"] = err.Error()
 				rec["m"] = map[string]interface{}{"t": "-"}
 			} else {
+				if am.H > heights {
+					// sent by a node that has committed the target height and gone on: its own records of that height are
+					// not part of the recorded execution (see above), so the message has no author in the trace. The
+					// receiver is at a lower height and ignores it.
+					continue
+				}
 				if le.Ev.PeerKey == "" {
 					rec["a"] = "Internal"
 				} else if s.Byz[am.By] || (am.T == "B" && len(am.V) > 0 && (am.V[0] == "X" || am.V[0] == "I")) {
@@ -297,6 +434,14 @@ func (s *Sim) LiveTrace(events []LiveEvent, heights int64) []map[string]interfac
 					if s.Byz[am.By] && le.Ev.PeerKey != "" {
 						rec["a"] = "Byz"
 					}
+				}
+				if rec["a"] == "Internal" {
+					authored[akey(am)] = true
+				} else if rec["a"] == "Peer" && !authored[akey(am)] {
+					// The author handled this message from its own queue only after it had committed the target height
+					// (e.g. its own precommit, overtaken by the precommits of the others), and that record is not part of
+					// the recorded execution (see above): the execution that can be explained ends here.
+					break
 				}
 				rec["m"] = am.AsSpec()
 				rec["pk"] = int64(s.peerIndex(le.Ev.PeerKey))
@@ -525,4 +670,16 @@ func (s *Sim) storeHeights() map[int]int64 {
 		out[i] = s.Nodes[i].Store.Height()
 	}
 	return out
+}
+
+func rawHeight(m pbft.ConsensusMessage) int64 {
+	switch x := m.(type) {
+	case *pbft.VoteMessage:
+		return x.Vote.Height
+	case *pbft.ProposalMessage:
+		return x.Proposal.Height
+	case *pbft.BlockPartMessage:
+		return x.Height
+	}
+	return 0
 }
